@@ -49,6 +49,20 @@ FAMILY_MOD = {'none': [], '2Sz': [1], 'pSz': [2], 'N': [1], 'pN': [2], 'N2Sz': [
 FAMILIES = {}
 for _k, _v in KINDS.items():
     FAMILIES.setdefault(_v[2], []).append(_k)
+# kinds used only by the crossing-covering generator `gen_covering_x` (kept out of FAMILIES so that the random
+# streams of the other generators are unchanged)
+KINDS.update({
+    'S3:none': ('SpinSite', {'S': 1.5, 'conserve': None}, 'none'),
+    'S3:Sz': ('SpinSite', {'S': 1.5, 'conserve': 'Sz'}, '2Sz'),
+})
+# non-fermionic pools with several charge values per site (bond legs of a crossed bond then carry many sectors)
+COVER_X_POOLS = {
+    '2Sz': ['S3:Sz', 'S3:Sz', 'S1:Sz', 'S1:Sz', 'SH:Sz'],
+    'N': ['B3:N', 'B3:N', 'B2:N', 'B2:N'],
+    'pSz': ['S1:par', 'SH:par'],
+    'pN': ['B2:par'],
+    'none': ['S1:none', 'B2:none', 'SH:none'],
+}
 # (up, down) state labels usable for from_singlets
 UPDOWN = {'SH': ('up', 'down'), 'S1': ('up', 'down'), 'F': ('full', 'empty'), 'SHF': ('up', 'down')}
 
@@ -63,6 +77,9 @@ def std_table(kind):
     elif base == 'S1':      # [-1, 0, +1]
         two_sz, n, par = [-2, 0, 2], None, [0, 0, 0]
         psz = [0, 1, 0]
+    elif base == 'S3':      # [-3/2, -1/2, +1/2, +3/2]
+        two_sz, n, par = [-3, -1, 1, 3], None, [0, 0, 0, 0]
+        psz = [0, 1, 0, 1]
     elif base == 'F':       # [empty, full]
         two_sz, n, par = None, [0, 1], [0, 1]
     elif base in ('B2', 'B3'):
@@ -467,6 +484,50 @@ def gen_finite_build(rng, kinds, allow=None):
     return b
 
 
+def gen_covering_x(rng):
+    """from_product_mps_covering with CROSSING / interleaved local states of 1-3 sites whose bonds carry several
+    charge sectors and generic (non-degenerate) Schmidt weights: the virtual legs of the result are products of
+    the local bond legs, re-sorted by charge.  Local index tuples are ascending or differ from ascending by one
+    transposition (any other order runs into the known finding F31).  'local_prep': 'canon' = the local MPS is
+    brought to canonical form by canonical_form() (virtual legs sorted by charge), 'raw' = as returned by
+    from_full."""
+    fam = rng.choice(['2Sz', '2Sz', '2Sz', 'N', 'N', 'N', 'pSz', 'pN', 'none'])
+    pool = COVER_X_POOLS[fam]
+    L = rng.choice([4, 4, 5, 6, 6])
+    if rng.random() < 0.6:
+        kinds = [rng.choice(pool)] * L
+    else:
+        kinds = [rng.choice(pool) for _ in range(L)]
+    while int(np.prod([std_table(k)[0] for k in kinds])) > 4096:
+        kinds = kinds[:-1]
+    L = len(kinds)
+    idx = list(range(L))
+    rng.shuffle(idx)
+    groups = []
+    j = 0
+    while j < L:
+        n = min(rng.choice([2, 2, 2, 3, 3, 1]), L - j)
+        g = sorted(idx[j:j + n])
+        if n >= 2 and rng.random() < 0.25:
+            a, c = rng.sample(range(n), 2)
+            g[a], g[c] = g[c], g[a]
+        groups.append(g)
+        j += n
+    rng.shuffle(groups)
+    b = {'method': 'covering', 'seed': rng.randrange(1 << 30), 'cplx': rng.random() < 0.4, 'groups': groups,
+         'k': None, 'sector': 'max', 'local_prep': 'canon' if rng.random() < 0.88 else 'raw'}
+    return {'bc': 'finite', 'sites': kinds, 'build': b}
+
+
+def largest_sector(S, sub):
+    """the total charge on the sites `sub` shared by the largest number of basis states"""
+    if not S.mod:
+        return []
+    tot = S.total_charge(sub).reshape(-1, len(S.mod))
+    vals, cnt = np.unique(tot, axis=0, return_counts=True)
+    return [int(x) for x in vals[int(np.argmax(cnt))]]
+
+
 def sector_vector(rng, S, sub, k=None, cplx=False, Q=None):
     """random vector with definite total charge on the sites `sub` of S (tensor of shape dims)"""
     dims = [S.dims[i] for i in sub]
@@ -679,7 +740,10 @@ def build_data(spec, SI):
         vec = np.ones([1] * L, dtype=complex)
         locs = []
         for g in b['groups']:
-            v, Q = sector_vector(rng, S, g, k=b['k'] + 1, cplx=cplx)
+            if b.get('sector') == 'max':      # full support on the largest charge sector: generic Schmidt weights
+                v, Q = sector_vector(rng, S, g, k=None, cplx=cplx, Q=largest_sector(S, g))
+            else:
+                v, Q = sector_vector(rng, S, g, k=b['k'] + 1, cplx=cplx)
             v = v / np.linalg.norm(v)
             locs.append(v)
             # local state lives on local sites 0..n-1 which are mapped to the sites g[0..n-1]:
